@@ -130,6 +130,26 @@ def toAstFields : JFields → List Name → AVFields
     else .cons n (toAst x) (toAstFields r (n :: seen))
 end
 
+def JFields.keys : JFields → List Name
+  | .nil => []
+  | .cons n _ r => n :: r.keys
+
+mutual
+/-- the JSON documents `json_subset_partial` covers: no integer literal in (2^63-1, 2^64-1],
+    no object with a repeated key. -/
+def jsonGuard : J → Bool
+  | .num src _ _ => numClass src != .uint64
+  | .arr xs => jsonGuardList xs
+  | .obj fs => jsonGuardFields fs && fs.keys.Nodup
+  | _ => true
+def jsonGuardList : JList → Bool
+  | .nil => true
+  | .cons x r => jsonGuard x && jsonGuardList r
+def jsonGuardFields : JFields → Bool
+  | .nil => true
+  | .cons _ x r => jsonGuard x && jsonGuardFields r
+end
+
 /-! driver transport: `null` `true` `false` `(n src ci cf)` `(s hex)` `(a J…)` `(o (hex J)…)` -/
 mutual
 partial def decJ : Sexp → Option J
